@@ -568,6 +568,71 @@ for _ in pad: $1 {
     }
 //@end
 }
+
+// =============================== src/disassembly/mod.rs: the thin caller ====================================
+use vstd::prelude::*;
+use std::rc::Rc;
+use crate::opcode::DynOpcode;
+use crate::enc_all;
+use crate::error::disassembly;
+
+//@extract file=src/disassembly/mod.rs path="struct InstructionStream" kind=type
+//@end
+impl InstructionStream {
+    pub closed spec fn ops(&self) -> Seq<DynOpcode> { (*self.instructions)@ }
+}
+
+// A-STD: `v.iter().flat_map(|opcode| opcode.encode()).collect()` is the concatenation, in order, of what each element's `encode`
+// returns; `encode` returns `enc` (proved above for the default method and for PushN::encode) — hence `enc_all`.
+#[verifier::external_body]
+pub fn vx_flat_encode(v: &Rc<Vec<DynOpcode>>) -> (r: Vec<u8>)
+    ensures r@ == enc_all((**v)@)
+{ unimplemented!() }
+
+// A-STD: `assert_eq!(a, b)` on byte slices panics iff they differ: the PRECONDITION is that they are equal (C01)
+#[verifier::external_body]
+pub fn vx_assert_eq_bytes(a: &[u8], b: &[u8])
+    requires a@ == b@
+{ assert_eq!(a, b); }
+
+//@extract file=src/disassembly/mod.rs path="impl InstructionStream" kind=header
+//@end
+//@extract file=src/disassembly/mod.rs path="impl InstructionStream|fn as_bytecode" props=C10,C01 id=InstructionStream::as_bytecode
+//@ret r
+//@spec
+        ensures r@ == enc_all(self.ops()),                                    //@ob C10.dis.stream.as_bytecode_is_the_encoding
+// R-CALL: the iterator chain -> the A-STD stand-in
+//@rw R-CALL
+//@old
+self.instructions.iter().flat_map(|opcode| opcode.encode()).collect()
+//@new
+vx_flat_encode(&self.instructions)
+//@end
+}
+
+impl<'a> vstd::std_specs::convert::TryFromSpecImpl<&'a [u8]> for InstructionStream {
+    open spec fn obeys_try_from_spec() -> bool { false }
+    open spec fn try_from_spec(v: &'a [u8]) -> Result<Self, Self::Error> { arbitrary() }
+}
+//@extract file=src/disassembly/mod.rs path="impl<'a> TryFrom<&'a [u8]> for InstructionStream" kind=header
+//@end
+    type Error = disassembly::LocatedError;
+//@extract file=src/disassembly/mod.rs path="impl<'a> TryFrom<&'a [u8]> for InstructionStream|fn try_from" props=C10,C01 id=InstructionStream::try_from_bytes
+//@ret r
+//@spec
+        ensures
+            value@.len() == 0 ==> r is Err,                                                     //@ob C10.dis.stream.empty_is_error
+            0 < value@.len() <= u32::MAX ==> r is Ok,                                           //@ob C10.dis.stream.total
+            r is Ok ==> r->Ok_0.ops().len() == value@.len(),                                    //@ob C10.dis.stream.index_is_offset
+            r is Ok ==> enc_all(r->Ok_0.ops()) == value@,                                       //@ob C10.dis.stream.lossless
+// R-CALL: `assert_eq!` -> the stand-in whose precondition is the panic condition (the sanity check can never fire: C01)
+//@rw R-CALL optional
+//@old
+assert_eq!($1, $2);
+//@new
+vx_assert_eq_bytes($1, $2);
+//@end
+}
 }
 
 } // verus!
